@@ -15,6 +15,7 @@ from ..core import astutil as au
 from ..core.report import AnalysisError
 from ..core.tables import FiniteEval
 from .c07 import CASES, eval_guards
+from ..core.template import find, has, require
 
 LEVEL = 'other'
 SIMS = 'emg3d/simulations.py'
@@ -109,59 +110,93 @@ def run(ctx):
     ctx.check('C08.V3.copy', 'jvec works on a copy of the input vector', ok,
               'the chain rule is applied in place to the caller\'s vector',
               ctx.where(sm, jv))
-    cbt = ast.unparse(cb).replace(' ', '')
-    ctx.check('C08.V3.source', 'jvec source field',
-              'gfield=fields.Field(grid=efield.grid,data=-efield.smu0*gvec,'
-              'frequency=efield.frequency)' in cbt,
-              'the source of the sensitivity solve is not -s mu0 (dA/dm v) E '
-              'on the grid of the forward field', ctx.where(sm, cb))
-    ctx.check('C08.V3.source', 'jvec inner-product derivative times vector',
-              'efield.grid.get_edge_inner_product_deriv(np.ones('
-              'efield.grid.n_cells*ncase))(efield.field)*cvector' in cbt,
-              'edge inner-product derivative is not applied to the forward '
-              'field and multiplied by the conductivity vector',
-              ctx.where(sm, cb))
-    ctx.check('C08.V3.source', 'jvec hand-over',
-              "data={'model':self.model,'sfield':gfield,'efield':None,"
-              "'solver_opts':self.solver_opts}" in cbt and
-              "data['solver_opts']['tol']=self.tol_gradient" in cbt,
-              'task is not (model, sfield=gfield, efield=None) with the '
-              'gradient tolerance', ctx.where(sm, cb))
+    ef = find("_e_ = self._dict_get('efield', _s_, _f_)", cb)
+    ctx.anchor(len(ef) == 1, 'forward field in the jvec task builder')
+    e = ef[0][1]['_e_']
+    io = find("_o_ = {'method': 'volume', 'extrapolate': True, 'log': False,"
+              " 'grid': self.model.grid}", jv)
+    cvl = find(f'_c_ = [maps.interpolate(values=_q_, xi={e}.grid, **_o_)'
+               f".ravel('F') for _q_ in {v}[:, ...]]", cb,
+               {'_o_': io[0][1]['_o_']} if io else None)
     ctx.check('C08.V3.source', 'jvec interpolates the vector to the '
-              'computational grid',
-              'cvector=[maps.interpolate(values=v,xi=efield.grid,**iopts)'
-              ".ravel('F')forvinvector[:,...]]" in cbt and
-              "iopts={'method':'volume','extrapolate':True,'log':False,"
-              "'grid':self.model.grid}" in ast.unparse(jv).replace(' ', ''),
+              'computational grid', len(io) == 1 and len(cvl) == 1,
               'model vector is not volume-averaged (linear) from the model '
               'grid to the computational grid', ctx.where(sm, cb))
+    gv = find(f'_g_ = {e}.grid.get_edge_inner_product_deriv(np.ones('
+              f'{e}.grid.n_cells * ncase))({e}.field) * cvector', cb)
+    ctx.check('C08.V3.source', 'jvec inner-product derivative times vector',
+              len(gv) == 1, 'edge inner-product derivative is not applied to '
+              'the forward field and multiplied by the conductivity vector',
+              ctx.where(sm, cb))
+    gf = find(f'_gf_ = fields.Field(grid={e}.grid, data=-{e}.smu0 * _g_, '
+              f'frequency={e}.frequency)', cb,
+              {'_g_': gv[0][1]['_g_']} if gv else None)
+    ctx.check('C08.V3.source', 'jvec source field', len(gf) == 1,
+              'the source of the sensitivity solve is not -s mu0 (dA/dm v) E '
+              'on the grid of the forward field', ctx.where(sm, cb))
+    ho = find("_d_ = {'model': self.model, 'sfield': _gf_, 'efield': None, "
+              "'solver_opts': self.solver_opts}", cb,
+              {'_gf_': gf[0][1]['_gf_']} if gf else None)
+    ok = len(ho) == 1 and has(
+        f"{ho[0][1]['_d_']}['solver_opts']['tol'] = self.tol_gradient", cb)
+    ctx.check('C08.V3.source', 'jvec hand-over', ok,
+              'task is not (model, sfield=gfield, efield=None) with the '
+              'gradient tolerance', ctx.where(sm, cb))
     # V4: slots, jtvec round trip
-    jt = ast.unparse(jv).replace(' ', '')
+    out = find('_out_ = _mp.process_map(_mp.solve, __, max_workers=__, '
+               '**__)', jv)
+    ctx.anchor(len(out) == 1, 'process_map call in jvec')
+    o = out[0][1]['_out_']
+    sl = find(f'for _i_, (_s_, _f_) in enumerate(self._srcfreq):\n'
+              f"    _g_ = self._load({o}[_i_][0], 'efield')\n"
+              f'    _r_ = self._get_responses(_s_, _f_, _g_)\n'
+              f"    self.data['jvec'].loc[_s_, :, _f_] = _r_", jv)
     ctx.check('C08.V4.slots', 'jvec stores responses by position',
-              "fori,(src,freq)inenumerate(self._srcfreq):" in jt and
-              "gfield=self._load(out[i][0],'efield')" in jt and
-              'resp=self._get_responses(src,freq,gfield)' in jt and
-              "self.data['jvec'].loc[src,:,freq]=resp" in jt,
-              'sensitivity responses are not stored in the slot of their '
-              'own task', ctx.where(sm, jv))
+              len(sl) == 1, 'sensitivity responses are not stored in the '
+              'slot of their own task', ctx.where(sm, jv))
     ctx.check('C08.V4.slots', 'jvec evaluates the misfit (forward fields) '
-              'first', '_=self.misfit' in jt, 'forward fields are not '
-              'guaranteed to exist', ctx.where(sm, jv))
+              'first', has('_ = self.misfit', jv) or has('self.misfit', jv),
+              'forward fields are not guaranteed to exist', ctx.where(sm, jv))
     jtv = sm.method('Simulation', 'jtvec')
     jps = au.params(jtv)
-    t = ast.unparse(jtv).replace(' ', '')
     ctx.check('C08.V4.weights', 'jtvec divides by the stored weights',
-              f'self.data.residual[...]={jps[1]}/self.data.weights.data' in t,
+              has(f'self.data.residual[...] = {jps[1]} / '
+                  'self.data.weights.data', jtv),
               'the vector is not divided by the data weights before it '
               'replaces the residual', ctx.where(sm, jtv))
     rf = sm.method('Simulation', '_get_rfield')
-    rt = ast.unparse(rf).replace(' ', '')
+    r_ = find('_r_ = self.data.residual.loc[__, :, __].data', rf)
+    w_ = find('_w_ = self.data.weights.loc[__, :, __].data', rf)
+    ok = len(r_) == 1 and len(w_) == 1 and has(
+        f'{r_[0][1]["_r_"]} * {w_[0][1]["_w_"]} / __', rf)
     ctx.check('C08.V4.weights', '_get_rfield multiplies by the same weights',
-              'weight=self.data.weights.loc[' in rt and
-              'residual=self.data.residual.loc[' in rt and
-              'residual*weight' in rt,
-              'the division by the weights in jtvec is not undone by a '
+              ok, 'the division by the weights in jtvec is not undone by a '
               'multiplication with the same weights', ctx.where(sm, rf))
     ctx.check('C08.V4.weights', 'jtvec uses the gradient machinery',
-              'self.gradient' in t, 'jtvec does not go through the gradient',
-              ctx.where(sm, jtv))
+              has('self.gradient', jtv), 'jtvec does not go through the '
+              'gradient', ctx.where(sm, jtv))
+    # J^T back-propagates from exactly the positions the forward operator
+    # samples (absolute receiver coordinates), and, for computational grids
+    # other than the model grid, brings the result back with the transposed
+    # volume average, component by component
+    from .c07 import adjoint_sources
+    from .c15 import rule_VA5
+
+    class Map:
+        def __init__(self, c):
+            self.c, self.repo = c, c.repo
+
+        def check(self, rule, *a, **k):
+            if rule in ('C07.AS.source', 'C07.AS.nan'):
+                return self.c.check('C08.V4.adjoint_sources', *a, **k)
+            return True
+
+        def anchor(self, *a):
+            return self.c.anchor(*a)
+
+        def where(self, m, n):
+            return self.c.where(m, n)
+    adjoint_sources(Map(ctx))
+    rule_VA5(ctx, 'C08.V4.adjoint_grid')
+    ctx.floor('C08.V4.adjoint_sources', 5)
+    ctx.floor('C08.V4.adjoint_grid', 4)
